@@ -349,8 +349,8 @@ impl Molecule {
                 }
 
                 for neighbour_j in all_neighbours[bond.pair.j].iter() {
-                    if neighbour_j == &bond.pair.i {
-                        continue;
+                    if neighbour_j == &bond.pair.i || neighbour_j == neighbour_i {
+                        continue; // i -- j -- k -- l must be four distinct atoms (three-membered rings)
                     }
 
                     let dihedral = ProperDihedral {
